@@ -83,8 +83,9 @@ fn find_json(c: &step::Collection<W>, st: &gherkin::Step) -> Value {
 pub fn run(case: &Value) -> Value {
     let regs_a: Vec<Value> = case["regs"].as_array().cloned().unwrap_or_default();
     let regs_b: Vec<Value> = case["regs_b"].as_array().cloned().unwrap_or_default();
+    // a Collection is `Clone` (runner::Basic clones it): a copy must answer exactly like the original
     let ca = build(&regs_a);
-    let cb = build(&regs_b);
+    let cb = build(&regs_b).clone();
 
     // oracle: what the regex engine says for every (regex, step text)
     let mut rx: BTreeMap<String, BTreeMap<String, Value>> = BTreeMap::new();
